@@ -119,7 +119,14 @@ def daemon_class(P, hookraise):
     return HookRaisingDaemon
 
 
-def run_history(h, shape, creator_kind, servertype="multiplex", hookraise=False, two_daemons=False):
+def end_connection(p, abortive):
+    """the client ends its connection: an orderly release, or (abortive) a reset - the process was killed, the path was cut"""
+    if abortive and p._pyroConnection is not None:
+        p._pyroConnection.sock.abort()
+    p._pyroRelease()
+
+
+def run_history(h, shape, creator_kind, servertype="multiplex", hookraise=False, two_daemons=False, abortive=False):
     import Pyro5.api as P
     from Pyro5 import config
     config.SERVERTYPE = servertype
@@ -161,7 +168,7 @@ def run_history(h, shape, creator_kind, servertype="multiplex", hookraise=False,
                 tr.append({"e": "open", "c": conns[c][0]})
             elif a == "close":
                 cid, p = conns.pop(c)
-                p._pyroRelease()
+                end_connection(p, abortive)
                 sc.quiesce()
                 tr.append({"e": "close", "c": cid, "alive": alive_after_close(stats, cid)})
             elif a == "call":
@@ -177,7 +184,7 @@ def run_history(h, shape, creator_kind, servertype="multiplex", hookraise=False,
                     tr.append({"e": "call", "c": cid, "k": k, "inst": 0, "ok": False})
         for c in list(conns):
             cid, p = conns.pop(c)
-            p._pyroRelease()
+            end_connection(p, abortive)
             sc.quiesce()
             tr.append({"e": "close", "c": cid, "alive": alive_after_close(stats, cid)})
         p = None
@@ -266,9 +273,10 @@ def run(ctx):
             hr = i % 3 == 2
             st = "thread" if i % 4 == 3 else "multiplex"
             two = i % 5 == 1        # a second daemon in the same process takes over half way
-            traces.append(run_history(h, shape, "none", servertype=st, hookraise=hr, two_daemons=two))
+            ab = i % 7 in (2, 3)    # the connections end with a reset instead of an orderly close
+            traces.append(run_history(h, shape, "none", servertype=st, hookraise=hr, two_daemons=two, abortive=ab))
             metas.append({"part": "history" + ("-threadserver" if st == "thread" else ""), "shape": shape, "creator": "none", "h": h, "hookraise": hr,
-                          "two_daemons": two})
+                          "two_daemons": two, "abortive": ab})
     for creator in CREATORS[1:]:
         for shape in ("truthy", "falsy_len"):
             for h in hs[n_plain:n_plain + n_creator]:
@@ -330,7 +338,7 @@ def replay(ctx, path):
             print("replay of race cases: rerun the check (schedules are re-explored)")
             continue
         tr = run_history(meta["h"], meta["shape"], meta["creator"], "thread" if "thread" in meta["part"] else "multiplex",
-                         hookraise=meta.get("hookraise", False), two_daemons=meta.get("two_daemons", False))
+                         hookraise=meta.get("hookraise", False), two_daemons=meta.get("two_daemons", False), abortive=meta.get("abortive", False))
         v, _ = tlc.validate(ctx, "Trace_Inst", [tr], cfg="Trace_Inst.cfg")
         print("replay:", meta["shape"], meta["creator"], "->", v[0] or "accepted")
         bad += bool(v[0])
